@@ -326,8 +326,8 @@ fn compile_error_pos(msg: &str) -> Option<(usize, usize)> {
 
 fn eval_bad_token(src: &str, seed: u64) -> Eval {
     // choose a token boundary on a line: between two significant tokens of the same line
-    use koto_lexer::{Lexer, Token};
-    let toks: Vec<_> = Lexer::new(src).collect();
+    use koto_lexer::Token;
+    let toks: Vec<_> = crate::textgen::lex_all(src);
     let mut sites = vec![];
     let mut depth_str = 0;
     let mut brackets = 0i32;
